@@ -332,10 +332,17 @@ def origins(fn, node, definite_out_calls=(), _seen=None, _depth=0):
 def polar(cond, way):
     """normalise a branch decision: strip leading `!` — returns (atom node, polarity)"""
     c = cond.strip()
-    while c.k == 'UnaryOperator' and c.op == '!':
-        c = c.children[0].strip()
-        way = not way
-    return c, way
+    while True:
+        if c.k == 'UnaryOperator' and c.op == '!':
+            c = c.children[0].strip()
+            way = not way
+            continue
+        if c.k == 'BinaryOperator' and c.op in ('&&', '||'):
+            # `!(a && b)`: clang reports the whole negated condition for the block that ends in the IfStmt, but that block is entered only once `a`
+            # did not short-circuit: the deciding value is the right-most operand (cfg.cond_node does the same for the un-negated form)
+            c = c.children[1].strip()
+            continue
+        return c, way
 
 
 def controlling_atoms(fn, node):
